@@ -773,7 +773,13 @@ impl Gen {
         env.verdict = Some(match self.rng.below(9) {
           0 => VerdictS::Invalid,
           1 => VerdictS::Failed,
-          8 => VerdictS::Down,
+          // unreachable: only with an event-forwarding modulator, where the model knows that the notifications of a
+          // clean-up fail as well (`evok=0`)
+          8 if self.cfg.has_op(Operation::ForwardEvent) => {
+            env.ev_ok = false;
+            VerdictS::Down
+          },
+          8 => VerdictS::Failed,
           2 | 3 => {
             let mut p = self.payload();
             if p.is_empty() || p.len() > self.cfg.max_payload as usize {
@@ -899,8 +905,8 @@ pub async fn run_op(
     let mut s = m.script.lock().unwrap();
     s.ev_ok = env.ev_ok;
     s.verdict = env.verdict.clone().unwrap_or(VerdictS::Valid);
-    // exactly the first call of the request finds the modulator unreachable
-    s.down_calls = if matches!(env.verdict, Some(VerdictS::Down)) { 1 } else { 0 };
+    // the whole request (its clean-up included, if it ends the connection) finds the modulator unreachable
+    s.down = matches!(env.verdict, Some(VerdictS::Down));
     s.auth = env.auth.clone().unwrap_or(AuthS::Failure);
     s.direct = env.direct.unwrap_or(Some(true));
   }
